@@ -128,6 +128,30 @@ class ExploreCtx(BaseCtx):
         src = M.Source(st)
         return SymSourceHandle(src, label)
 
+    def input_from(self, items, **opts):
+        """A bytes-like input (SymBytes) made of writers' output, source handles and literal bytes."""
+        from vlib.model import bitstring as M
+        from vlib.symbytes import SymBytes
+        with NoTracing():
+            st = M.Store()
+            for it in items:
+                if isinstance(it, (bytes, bytearray)):
+                    for byte in bytes(it):
+                        st.append(M.Seg(8, byte))
+                elif isinstance(it, SymSourceHandle):
+                    st.extend(it.src.store)
+                elif isinstance(it, SymBytes):
+                    st.extend(it.store)
+                elif isinstance(it, sc.SymSeq):
+                    for t in it.items:
+                        st.append(M.Seg(8, t))
+                else:   # a BitStringBitWriter over the model
+                    st.extend(it.bit_stream._st)
+            st.opts = opts
+            if st.length % 8:
+                raise ValueError('input_from: not a whole number of octets')
+            return SymBytes(st)
+
     # ---- counterexample
     def realize_record(self, ret):
         rec = {'violation': sc.realize_any(ret), 'inputs': {}, 'sources': {}, 'notes': {}}
@@ -324,6 +348,17 @@ class ReplayCtx(BaseCtx):
     def source_of_written(self, label, writer, **opts):
         b = writer.bit_stream.bin
         return ConcreteSourceHandle(label, len(b), [k for k, c in enumerate(b) if c == '1'])
+
+    def input_from(self, items, **opts):
+        out = b''
+        for it in items:
+            if isinstance(it, (bytes, bytearray)):
+                out += bytes(it)
+            elif isinstance(it, ConcreteSourceHandle):
+                out += it.data if it.limit is None else it.data[:it.limit // 8]
+            else:
+                out += it.to_bytes()
+        return out
 
     def realize_record(self, ret):
         return {'violation': _jsonable(ret), 'notes': {k: _jsonable(v) for k, v in self.notes.items()}}
